@@ -126,3 +126,8 @@ def run(tier):
     v.assumptions = ["the theorem is exhaustive for token sequences up to the bound; whole programs are sampled from TLC-enumerated and random programs",
                      "identifiers spelled like the words of multi-word keywords (if, to, say, small ...) are not renderable and are not used"]
     return v.finish()
+
+
+def replay(path):
+    import replaytool
+    return replaytool.replay("C10", path)
